@@ -18,6 +18,7 @@ def interleave (text : List Char) (mode : Nat) : List Char :=
     if mode = 1 && i % 5 = 4 then [c, '-']
     else if mode = 2 && i % 7 = 6 then [c, '\n', ' ']
     else if mode = 3 then [c, ['.', ' ', '_', '/', '+', '=', '\t'].getD (i % 7) '.']
+    else if mode = 4 then [c, [Char.ofNat 0, Char.ofNat 127, Char.ofNat 11, Char.ofNat 1, '~', '|', Char.ofNat 31].getD (i % 7) '.']
     else [c]))
 
 def ttlOf (s : String) : Option (Option Nat) := if s = "-" then some none else s.toNat?.map some
